@@ -86,6 +86,14 @@ def mt_element(repo, res):
         res.fail(key, f"raises ({e.what}) for a terminal without table", m.line(f.node))
 
 
+def _bind_by_name(f, **values):
+    """keyword arguments for `f` by parameter name (the order of the parameters is the function's own business)"""
+    missing = [k for k in values if k not in f.params]
+    if missing:
+        raise AnalysisError(f"{f.key}: no parameter named {missing}")
+    return dict(values)
+
+
 @rule(
     "QUAD-FAMILY",
     ["C11", "C01"],
@@ -123,7 +131,7 @@ def quad_family(repo, res):
         res.ob(key)
         calls.clear()
         try:
-            mk().call_f(f, ["triangle", 3, "GLL", els])
+            mk().call_f(f, [], _bind_by_name(f, cellname="triangle", degree=3, rule="GLL", elements=els))
         except Raised as e:
             res.fail(key, f"create_quadrature raises ({e.what}) for {label}", m.line(f.node))
             continue
@@ -142,7 +150,7 @@ def quad_family(repo, res):
     it = mk()
     seq = [("triangle", 2, "GLL", [S]), ("triangle", 2, "default", [S]), ("triangle", 2, "default", [M]), ("interval", 2, "default", [S]), ("triangle", 3, "default", [S])]
     try:
-        outs = [it.call_f(f, [c_, d_, r_, e_]) for c_, d_, r_, e_ in seq]
+        outs = [it.call_f(f, [], _bind_by_name(f, cellname=c_, degree=d_, rule=r_, elements=e_)) for c_, d_, r_, e_ in seq]
     except Raised as e:
         res.fail(key, f"create_quadrature raises ({e.what}) in a sequence of requests", m.line(f.node))
         outs = None
